@@ -642,6 +642,18 @@ func (self *Core) runInstruction(instruction compiler.Instruction) *value.VmInte
 		self.push(value.NewValueRange(start, end, i.ValueBool))
 	case compiler.Opcode_IntoIter:
 		v := *self.pop()
+
+		// Iterate over a snapshot of the iterable with an iterator position of its own: the loop body may
+		// modify the list. The elements themselves are not copied, lists and objects inside stay shared.
+		switch iter := v.(type) {
+		case value.ValueList:
+			snapshot := make([]*value.Value, len(*iter.Values))
+			copy(snapshot, *iter.Values)
+			v = *value.NewValueList(snapshot)
+		default:
+			v = *v.Clone()
+		}
+
 		self.push(value.NewValueIter(v))
 	case compiler.Opcode_IteratorAdvance:
 		// Get the iterator from the stack.
